@@ -148,11 +148,43 @@ fn parse_call_argument<'a>(
             UnresolvedCallArgument::MemoryReference,
         ),
         map(token!(Identifier(v)), UnresolvedCallArgument::Identifier),
-        map(
-            super::expression::parse_immediate_value,
-            UnresolvedCallArgument::Immediate,
-        ),
+        map(parse_call_immediate, UnresolvedCallArgument::Immediate),
     ))(input)
+}
+
+/// Parse an immediate `CALL` argument: an optionally negated real or imaginary number, optionally
+/// followed by a signed imaginary part (i.e., everything a complex number is printed as).
+fn parse_call_immediate<'a>(
+    input: ParserInput<'a>,
+) -> InternalParserResult<'a, num_complex::Complex64> {
+    use crate::parser::lexer::Operator::{Minus, Plus};
+
+    let (input, negative) = opt(token!(Operator(Minus)))(input)?;
+    let (input, first) = super::expression::parse_immediate_value(input)?;
+    let first = if negative.is_some() { -first } else { first };
+
+    let imaginary_part = |input: ParserInput<'a>| {
+        let (input, negative) = alt((
+            map(token!(Operator(Plus)), |_| false),
+            map(token!(Operator(Minus)), |_| true),
+        ))(input)?;
+        let (input, second) = super::expression::parse_immediate_value(input)?;
+        if second.re != 0.0 {
+            // Only an imaginary number can follow the real part
+            return Err(nom::Err::Error(InternalParseError::from_kind(
+                input,
+                ParserErrorKind::UnsupportedPrecision,
+            )));
+        }
+        Ok((input, if negative { -second } else { second }))
+    };
+
+    if first.im == 0.0 {
+        let (input, second) = opt(imaginary_part)(input)?;
+        Ok((input, first + second.unwrap_or_default()))
+    } else {
+        Ok((input, first))
+    }
 }
 
 /// Parse the contents of a `CAPTURE` instruction.
